@@ -1,29 +1,32 @@
 from propbase import Comp, Prop, reg
 from oracledefs import lin
 
-LIN = Comp('lin', n_quick=384, n_thorough=6400, oracle=lin.lin_oracle, nontrivial=lin.lin_nontrivial, stats=lin.lin_stats,
+LIN = Comp('lin', n_quick=256, n_thorough=2400, oracle=lin.lin_oracle, nontrivial=lin.lin_nontrivial, stats=lin.lin_stats,
            differential=False, chunk_min=8, timeout=1500, shrink=False)
 
 reg(Prop('C06', 'Kevo.Props.C06',
          facts=['facts:locks.field.storage.*', 'facts:locks.field.memtable.*', 'facts:locks.field.wal.*', 'facts:locks.order',
-                'facts:locks.unpaired', 'facts:locks.excludedEntries',
+                'facts:locks.unpaired', 'facts:locks.excludedEntries', 'facts:locks.rotateWAL.seqHandover',
                 'facts:storage.Put.order', 'facts:storage.Delete.order', 'facts:storage.Get.order', 'facts:storage.rotateWAL.order',
                 'facts:storage.FlushMemTables.order', 'facts:storage.flushMemTable.order', 'facts:storage.scheduleFlush.order',
                 'facts:wal.Append.order', 'facts:wal.syncLocked.order', 'facts:wal.Close.order'],
          components=[LIN],
          fact_tags=['locks', 'storage', 'wal'],
-         rule='component lin (implementation only, no model run): N = 3..8 goroutines x 60..150 (thorough: ..500) put/get/delete '
-              'calls with unique values on 1..5 keys against a REAL EngineFacade with memtables of 200 B .. 2.5 KB (a log rotation '
-              'and a flush every few writes), optionally a goroutine calling FlushImMemTables every 0.5 ms and one calling '
-              'TriggerCompaction every 3 ms, GOMAXPROCS 1/2/4/16, sync-immediate and no-sync logs; a seeded handler at every '
-              'verifhook site (storage put/get/delete/flush/rotate/scheduleFlush, wal append/sync/close, pool switch, skiplist '
-              'insert, sstable finish, compaction) yields or sleeps 0-200 us. Recorded: monotonic invocation/response times and '
-              'results. Checked in-process: (1) linearizability of the history against the per-key register specification '
-              '(WGL search with memoisation; failed writes are no-ops; final reads of every key after all calls returned), '
-              '(2) the replayed log directory: every acknowledged put exactly once with its value, a failed put nowhere, '
-              'delete records per key = acknowledged deletes. Every 6th scenario is the deterministic D19 schedule (writer parked '
-              'by the hook after its record is buffered, rotation parked until the Put returned). Non-trivial: >= 100 calls and '
-              '>= 1 rotation, or the D19 scenario; distinct by script hash.',
+         rule='component lin (implementation only, no model run), three scenario kinds. stress: N = 3..8 goroutines x 60..150 '
+              '(thorough: ..500) put/get/delete calls with unique values on 1..5 keys against a REAL EngineFacade with memtables of '
+              '200 B .. 2.5 KB (a log rotation and a flush every few writes), optionally a goroutine calling FlushImMemTables every '
+              '0.5 ms and one calling TriggerCompaction every 3 ms, GOMAXPROCS 1/2/4/16, sync-immediate and no-sync logs; a seeded '
+              'handler at every verifhook site (storage put/get/delete/flush/rotate/scheduleFlush, wal append/sync/close, pool '
+              'switch, skiplist insert, sstable finish, compaction) yields or sleeps 0-200 us; recorded: monotonic '
+              'invocation/response times and results; checked in-process: (1) linearizability of the history against the per-key '
+              'register specification (WGL search with memoisation; failed writes are no-ops; final reads of every key after all '
+              'calls returned), (2) the replayed log directory AT FULL STRENGTH: every acknowledged put exactly once with its value, '
+              'a failed put nowhere, delete records per key = acknowledged deletes, sequence numbers strictly increasing in log order. '
+              'seqrot: 1..4 writers at full speed for 0.5-1 s (thorough 1.5-3 s) against back-to-back FlushImMemTables (about 100 '
+              'rotations per second, database on /dev/shm): oracle (2) only. d19 (every 6th scenario): the former D19 schedule made '
+              'deterministic with the hooks (writer parked after its record is buffered, rotation parked until the Put returned): the '
+              'Put must succeed with exactly one record, or fail without any effect. Non-trivial: >= 100 calls and >= 1 rotation, or '
+              'the d19 scenario; distinct by script hash.',
          assumptions=['PARTIAL: the interleaving model (Kevo.Model.ConcStorage) preempts only between the micro-steps it names: it cannot '
                       'exhibit preemption inside a Go statement, weak-memory effects (sequential consistency assumed), real blocking '
                       'times (the 10 ms retry sleeps are a bounded retry count), or panics outside the modelled ones',
